@@ -41,6 +41,7 @@ SCENES = {
     "bare-first-then-colls": {"sources": [cu("a", 2), co([cu("b"), cu("c"), cu("d")]), co([di("d1")])], "sensors": se1},
     "reachable-twice": {"sources": [cu("a"), co([{"ref": 0}, cu("b")])], "sensors": se1},
     "single-collection": {"sources": [co([cu("a"), cu("b")], 2)], "sensors": se1},
+    "collection-twice": {"sources": [co([cu("a"), cu("b")]), cu("c"), {"ref": 0}], "sensors": se1},
 }
 LINEAR = ["cuboid", "sphere", "triangle", "tetra", "dipole", "circle", "polyline"]
 FIXED = {
